@@ -9,9 +9,9 @@ CHECKS = {
     },
 }
 CHECKS['C05'] = {
-    'text': 'Verus proves on the extracted real text that every range bound built for a query (RecordsBounds::author_key/author_prefix/namespace/from_start/to_end, ByKeyBounds::new/namespace) contains exactly the ids the filter describes, for all namespaces, authors and byte-string keys (0xFF tails, empty keys included); Kani proves the byte-increment helper for all 32-byte ids. The offset/limit window of QueryIterator::next is out of reach and stated as not covered.',
+    'text': 'Verus proves on the extracted real text that every range bound built for a query (RecordsBounds::author_key/author_prefix/namespace/from_start/to_end, ByKeyBounds::new/namespace) contains exactly the ids the filter describes, for all namespaces, authors and byte-string keys (0xFF tails, empty keys included); Kani proves the byte-increment helper for all 32-byte ids. QueryIterator::new opens exactly the range the filters describe and QueryIterator::next is verified on its real text (after two logged generic desugarings for `break <value>` and tuple-pattern closure parameters): every call returns the entry at the remaining offset of the filtered stream - for latest-per-key queries the stream is the selector output over all live index rows, then author- and empty-filtered -, skips exactly `offset` entries, never passes `limit`; a verified client lemma shows that driving a fresh iterator to the end collects exactly take(limit, skip(offset, stream)). A bounded stand-in (c05_query) additionally executes 5508 queries against a real store.',
     'design_ref': 'DESIGN.md section 5, C05',
-    'note': 'Trusted: redb table order and range semantics (A-redb), Bytes as abstract byte string, increment_by_one for variable-length slices beyond the Kani bound; QueryIterator::next not covered.',
+    'note': 'Trusted: redb table order and range semantics (A-redb), Bytes as abstract byte string, increment_by_one for variable-length slices beyond the Kani bound; the generic RangeExt helpers (next_filter_map) are modelled in the range shells; behaviour after a redb read error is not specified.',
     'technique': 'contract-based deductive verification (Verus on mechanically extracted real functions; Kani for byte-level leaf functions)',
 }
 TECH = 'contract-based deductive verification (Verus on mechanically extracted real functions; Kani for byte-level leaf functions)'
